@@ -219,6 +219,12 @@ def check_interest(eng, name, digest_pos, P, app_param, signer_kind, signer, for
         if len(rn) == len(name) + 1:
             eng.check(env.names_equal(rn[:pos] + rn[pos + 1:], name), 'int-ref-name')
             eng.check(_digest_comp_ok(rn[pos]), 'int-ref-digest-component')
+            # "the parameters-digest component": its value is the digest of what the packet ON THE WIRE carries from
+            # ApplicationParameters to the end (ideal hash; the reference reader delimits the range)
+            ps = rv['#region'].get('params_start')
+            if ps is not None and len(blist(rn[pos])) == 34:
+                exp_dig = crypto.ideal('sha256', list(w[ps:rv['#outer'].ve]))
+                eng.check(beq(blist(rn[pos])[2:], exp_dig), 'int-ref-digest-component', sig='digest-of-another-byte-range')
     else:
         eng.check(env.names_equal(rn, name), 'int-ref-name')
     eng.check(Iff('can_be_prefix' in rv, P['cbp']), 'int-ref-flags')
